@@ -225,7 +225,7 @@ theorem backends_agree (T : ScopeTable) (S : Schema) (D : Frame) (hs : SharedSch
     (hK : ∀ spec ∈ S.columns, ∀ n c t, spec.name = some n → D.col? n = some c → spec.dtype = some t →
       K_C01_strVacuous t c.dtype c.vals = false) :
     (Polars.frameErrors S D).map normErr = (Pandera.frameErrors T .schemaAndData S D).map normErr := by
-  unfold Polars.frameErrors Pandera.frameErrors coreCheckErrors
+  unfold Polars.frameErrors Polars.coreErrors Pandera.frameErrors coreCheckErrors
   have hp : Polars.presenceErrors S D = Pandera.presenceErrors T .schemaAndData S D := by
     unfold Polars.presenceErrors Pandera.presenceErrors; simp
   have hj : Polars.jointUniqueErrors S D = Pandera.jointUniqueErrors T .schemaAndData S D := by
